@@ -93,8 +93,10 @@ pub fn worker(check: &dyn Check, tier: Tier, shard: usize, nshards: usize, resum
             let _ = writeln!(o, "B {}", idx);
             let _ = o.flush();
         }
+        let t_item = Instant::now();
         match check.run_item(tier, idx, jf.as_ref()) {
-            Ok(v) => {
+            Ok(mut v) => {
+                v["wall_ms"] = json!(t_item.elapsed().as_millis() as u64);
                 let mut o = out.lock();
                 let _ = writeln!(o, "R {} {}", idx, v);
                 let _ = o.flush();
@@ -438,6 +440,16 @@ pub fn run_check(check: &dyn Check, tier: Tier, exe: &str) -> RunOutcome {
     );
     cov.insert("worker_crashes".into(), json!(crashed_items.len()));
     cov.insert("engine".into(), json!(check.engine()));
+    let mut slow: Vec<(u64, String)> = vals
+        .iter()
+        .map(|v| (u(v, "wall_ms"), v["label"].as_str().unwrap_or("").to_string()))
+        .collect();
+    slow.sort_by(|a, b| b.0.cmp(&a.0));
+    cov.insert(
+        "slowest_items_ms".into(),
+        json!(slow.iter().take(5).map(|(ms, l)| json!({"ms": ms, "item": l})).collect::<Vec<_>>()),
+    );
+    cov.insert("cpu_ms_total".into(), json!(slow.iter().map(|x| x.0).sum::<u64>()));
     check.finalize(tier, &vals, &mut cov);
     let wall = t0.elapsed().as_secs_f64();
     let ev = json!({
